@@ -69,7 +69,10 @@ def core(ctx):
 @st.composite
 def _case(draw, ctx):
     ppools = (S.BENIGN,) if draw(st.integers(0, 3)) else (S.BENIGN, ["\\m.x", "\\m_x", "\\core.n1", "\\core_n1", "\\a.b.c"])
-    if draw(st.integers(0, 5)) == 0:
+    if draw(st.integers(0, 7)) == 0:
+        # ordinary nets named like nodes (or pins of nested instances) of a spliced copy: the call must refuse
+        ppools = (S.BENIGN[:10], ["s0_u0.d", "s0_u0.q", "s1_u0.q", "s0_u0.clk", "s0_u0.Y", "s1_u0.d", "s0_m1", "s0_m2", "s1_q1", "s1_m3", "s0_q2"])
+    elif draw(st.integers(0, 5)) == 0:
         # ordinary nets whose names look like a stripped blackbox pin <inst>_<pin>
         ppools = (S.BENIGN[:10], ["s0_q", "s0_d", "s1_q", "s0_clk", "s1_d", "s0_Y", "s0_A", "s2_q"])
     parent = draw(S.circuit_spec(min_inputs=1, max_inputs=3, min_gates=1, max_gates=5, max_fanin=3, name="p", pools=ppools))
@@ -141,7 +144,7 @@ def _case(draw, ctx):
                 nets += [f"{name}_{x[0]}" for x in ch["nodes"]]
     strip = None
     if draw(st.booleans()):
-        strip = {"ignore": draw(st.sampled_from([None, None, "clk", ["d"], ["q", "en"], "A", ["Y", "clk"], "d", "q", ["clk", "d"]]))}
+        strip = {"ignore": draw(st.sampled_from([None, None, "clk", ["d"], ["q", "en"], "A", ["Y", "clk"], "d", "q", ["clk", "d"], "sd", "nq", "gclk", "qn", ["nq"], ["sd", "gclk"]]))}
     tables = draw(st.lists(st.integers(0, (1 << 64) - 1), min_size=24, max_size=24))
     return {"parent": parent, "children": children, "steps": steps, "strip": strip, "tables": tables}
 
@@ -191,6 +194,21 @@ def check(case, ctx):
         reg_before = dict(P.blackboxes)
         conns = dict(step.get("conns", {}))
         keep_io = bool(step.get("keep_io"))
+        if op in ("sub", "fill"):
+            # the spliced copy is named <inst>_<node> (pins of nested instances included): when the parent already
+            # has a node of such a name the call must refuse (ValueError) and leave the parent as it was
+            spliced = {f"{name}_{x_}" for x_ in ch.graph.nodes}
+            own_pins = {f"{name}.{p_}" for p_ in (set(ch.inputs()) | set(ch.outputs()))} if op == "fill" else set()
+            clash = sorted(spliced & (set(P.graph.nodes) - own_pins))
+            if clash:
+                r_ = lib(P.fill_blackbox, name, ch) if op == "fill" else lib(P.add_subcircuit, ch, name, conns, **({"strip_io": False} if keep_io else {}))
+                if r_.ok:
+                    raise Violation(f"{op}|overlap_accepted", f"{where}: parent already has {clash[:3]}, the call was accepted and merged them")
+                if r_.type != "ValueError":
+                    raise Violation(f"{op}|overlap_{r_.type}", f"{where}: name overlap {clash[:3]}: {r_.text}")
+                if refsim.snapshot(P) != refsim.snapshot(before) or dict(P.blackboxes) != reg_before:
+                    raise Violation(f"{op}|overlap_refusal_left_state", f"{where}: refused call changed the parent")
+                return {"nontrivial": True, "labels": sorted(labels | {"overlap_refused"})}
         if op == "sub" and keep_io:
             need(lib(P.add_subcircuit, ch, name, conns, strip_io=False), "add_subcircuit_keep_io", where)
             p_inputs |= {f"{name}_{i}" for i in ch.inputs()}
